@@ -184,7 +184,8 @@ def run_shard(item):
         if bad and state["viol"] is None:
             state["viol"] = bad + (list(ex.choices),)
 
-    st = sched.explore(loop, make_task, on, max_i=MAX_I[tier], max_executions=CAP[tier])
+    # one injection (a callback of another task run between two steps) only for pairs: triples already have ~10^5 completion orders
+    st = sched.explore(loop, make_task, on, max_i=MAX_I[tier] if len(combo) == 2 else 0, max_executions=CAP[tier])
     out["counts"]["schedules"] += st["executions"]
     out["counts"]["choice_points"] += st["choice_points"]
     out["counts"]["nontrivial"] += state["nontrivial"]
